@@ -321,6 +321,7 @@ package httpgrpc
 // ---- clientStream methods (client.go): C02, C08, C05, C03, C04 ----
 //
 //@ func (*clientStream).readErrorIfDone
+//@   locks_only[C05] &cs.rMu
 //@   ensures[C02] not_done_no_verdict: !result0 ==> result1 == nil
 //@   ensures[C05] not_done_means_delivery_channel_still_open: !result0 ==> !closed(cs.rCh)
 //@   ensures[C02] done_never_reports_nil: result0 ==> result1 != nil
@@ -330,16 +331,19 @@ package httpgrpc
 //@   modifies nothing
 //
 //@ func (*clientStream).Trailer
+//@   locks_only[C05] &cs.rMu
 //@   ensures[C03] no_trailers_before_the_end: !called(metadataFromProto) ==> result == nil
 //@   assert_call[C03] metadataFromProto : of_the_received_trailer_once_done: arg0 == cs.tr.Metadata && cs.done
 //@   modifies nothing
 //
 //@ func (*clientStream).CloseSend
+//@   locks_only[C05] &cs.wMu, &cs.rMu
 //@   ensures[C05] closes_the_request_pipe_once: calls("io.WriteCloser.Close") == 1
 //@   assert_call[C05] io.WriteCloser.Close : arg0 == cs.w
 //@   modifies external
 //
 //@ func (*clientStream).SendMsg
+//@   locks_only[C05] &cs.wMu, &cs.rMu
 //@   ensures[C05] finished_stream_reports_eof_and_writes_nothing: lastresult("(*clientStream).readErrorIfDone", 0) ==> result == io.EOF && !called(writeProtoMessage)
 //@   ensures[C01,C05] at_most_one_frame_per_send: calls(writeProtoMessage) <= 1
 //@   ensures[C01] write_result_is_returned_and_remembered: called(writeProtoMessage) ==> result == lastresult(writeProtoMessage)
@@ -348,6 +352,7 @@ package httpgrpc
 //@   modifies cs.wErr, external
 //
 //@ func (*clientStream).RecvMsg
+//@   locks_only[C05] &cs.rMu
 //@   blocking_escape[C05,C04] cs.ctx
 //@   ensures[C04] context_end_is_reported_as_status: called(statusFromContextError) ==> result == lastresult(statusFromContextError)
 //@   assert_call[C04] statusFromContextError : of_the_stream_context_error: arg0 == lastresult("context.Context.Err")
